@@ -74,14 +74,14 @@ Fixpoint delivered (s : list instant) (obs : list tick_obs) : list move :=
 Definition gran (c : run_case) (side : N) : N := if side =? 0 then rc_gin c else rc_gout c.
 Definition mem_len (c : run_case) (side : N) : N := N.of_nat (length (if side =? 0 then rc_mem_in c else rc_mem_out c)).
 
-(** moves the data mover accepts: known sides, aligned addresses, ranges inside the memories,
-    and source / destination ranges that do not overlap *)
+(** moves the data mover accepts: known sides, aligned addresses, ranges inside the memories
+    (source and destination may be on the same side, even overlapping: the statement is about
+    the bytes the source range held when the move was requested) *)
 Definition move_ok (c : run_case) (v : move) : bool :=
   (v_sside v <=? 1) && (v_dside v <=? 1) &&
   (0 <? gran c (v_sside v)) && (0 <? gran c (v_dside v)) &&
   (v_saddr v mod gran c (v_sside v) =? 0) && (v_daddr v mod gran c (v_dside v) =? 0) &&
-  (v_saddr v + v_size v <=? mem_len c (v_sside v)) && (v_daddr v + v_size v <=? mem_len c (v_dside v)) &&
-  (negb (v_sside v =? v_dside v) || (v_saddr v + v_size v <=? v_daddr v) || (v_daddr v + v_size v <=? v_saddr v)).
+  (v_saddr v + v_size v <=? mem_len c (v_sside v)) && (v_daddr v + v_size v <=? mem_len c (v_dside v)).
 
 Definition apply_move (ms : list N * list N) (v : move) : list N * list N :=
   let '(mi, mo) := ms in
